@@ -151,6 +151,11 @@ pub fn read_plan_candidates(p: &ReadPlan) -> Vec<ReadPlan> {
             q.faults[i].sticky = false;
             out.push(q);
         }
+        if p.faults[i].payload != Payload::Custom {
+            let mut q = p.clone();
+            q.faults[i].payload = Payload::Custom;
+            out.push(q);
+        }
         if let ReadFaultKind::Hard(k) = p.faults[i].kind {
             if k != Kind::Other {
                 let mut q = p.clone();
@@ -387,11 +392,11 @@ pub fn c06_run(seed: u64, i: u64, mon: &mut Mon, found: &mut Vec<Found>) {
     } else {
         None
     };
-    let parity = rng.coin();
+    let salt = rng.usize_below(16);
     if mon.keep_log || i < 2 {
         mon.samples_push(|| serde_json::json!({"run": i, "engine": "E-STREAM", "opts": opts::describe_parse(base.opts), "api": base.api.name(), "input": text::show(&base.input), "plan": base.plan, "sweep": "hard error at every offset 0..=len, early end at every offset 0..len, 4 benign chunkings"}));
     }
-    stream::sweep(&base, offsets.as_deref(), parity, mon, |case, v| {
+    stream::sweep(&base, offsets.as_deref(), salt, mon, |case, v| {
         found.push(Found { violation: v.clone(), case: AnyCase::Stream(case.clone()) });
     });
     mon.count("scenarios");
@@ -486,6 +491,7 @@ pub fn c19_run(seed: u64, i: u64, mon: &mut Mon, found: &mut Vec<Found>) {
                     kind: ReadFaultKind::Hard(*rng.pick(&KINDS)),
                     sticky: rng.coin(),
                     id: 700 + n,
+                    payload: payload_for(rng.usize_below(8)),
                 }];
                 let c = StreamCase { plan: plan.clone(), ..base.clone() };
                 let before = mon.violations.len();
